@@ -36,7 +36,9 @@ SPECIFICATION Spec
 INVARIANTS Conformable FinalShapes RangeCaptured
 CHECK_DEADLOCK FALSE
 """
-SVALS = {0: [], 1: [[3.0]], 2: [[5.0, 2.0], [4.0, 4.0]], 3: [[5.0, 3.0, 1.0], [5.0, 5.0, 2.0]], 4: [[8.0, 4.0, 2.0, 1.0]],
+# the last pattern of ranks 2..4 is GRADED (spread retained values): power iterations without re-orthonormalisation lose them
+SVALS = {0: [], 1: [[3.0]], 2: [[5.0, 2.0], [4.0, 4.0], [8.0, 2.0 ** -7]], 3: [[5.0, 3.0, 1.0], [5.0, 5.0, 2.0], [8.0, 2.0 ** -7, 2.0 ** -14]],
+         4: [[8.0, 4.0, 2.0, 1.0], [8.0, 2.0 ** -5, 2.0 ** -10, 2.0 ** -15]],
          5: [[9.0, 6.0, 4.0, 2.0, 1.0]], 6: [[9.0, 7.0, 5.0, 3.0, 2.0, 1.0]]}
 
 
@@ -58,6 +60,10 @@ def _cell(args):
         # the sketch is wider than rank(A) (C06 finding); repeated singular values hit the contraction (C05 finding)
         degenerate = (len(set(x for x in s if x != 0)) < rk) or rk < min(m, R + P)
         cls = "rank-deficient-sketch-or-repeated-values" if degenerate else "full-rank-sketch-simple-spectrum"
+        nzs = [x for x in s if x != 0]
+        cond_s = (max(nzs) / min(nzs)) if nzs else 1.0
+        if not degenerate and cond_s >= 2.0 ** 10:
+            cls = "graded-spectrum"             # recorded finding (C06): orthonormality of the range basis degrades like eps * cond
         ey = math.sqrt(sum(x * x for x in s[R:]))
         for seed in seeds:
             np.random.seed(seed)
@@ -79,6 +85,13 @@ def _cell(args):
             top = max(s[0] if s else 0.0, 1e-300)
             rec.units(t, "OrthonormalU", S.ortho_units(Uf))
             rec.units(t, "OrthonormalV", S.ortho_units(Vf))
+            if cls == "graded-spectrum":
+                # the weaker clauses stay armed inside the recorded class: loss bounded by eps * cond, not eps * cond^2
+                for nm, M in (("OrthonormalUUpToConditioning", Uf), ("OrthonormalVUpToConditioning", Vf)):
+                    G = omul(oherm(M), M)
+                    for i_ in range(M.shape[1]):
+                        G[i_, i_, 0] -= 1.0
+                    rec.lgle(t, nm, float(np.max(np.abs(G))), 2.0 ** -52 * cond_s * 4 * max(m, n), 6 * 64)
             rec.flag(t, "ValuesSortedNonNegative", bool(np.all(sf >= -64 * EPS * top) and np.all(np.diff(sf) <= 64 * EPS * top)))
             # interlacing s_i <= sigma_i
             exc = max([sf[i] - s[i] for i in range(R)] + [0.0])
